@@ -291,3 +291,76 @@ pub fn record_classes(c: &Classes, p: &Prepared, st: &mut Stats) {
     flag("surface.comments_or_pis", p.ser.comments > 0);
     flag("surface.both_empty_forms", p.ser.selfclosed > 0 && p.ser.expanded_empty > 0);
 }
+
+// ---------------------------------------------------------------------------------------
+// options decoded from a tape
+
+#[derive(Clone, Debug)]
+pub struct OptSpec {
+    pub prefix: String,
+    pub text_id: String,
+    pub derive: String,
+    pub by_name: bool,
+}
+
+impl OptSpec {
+    pub fn to_options(&self) -> Options {
+        sut::opts_custom(&self.prefix, &self.text_id, &self.derive, self.by_name)
+    }
+    pub fn json(&self) -> Value {
+        json!({"attribute_prefix": self.prefix, "text_identifier": self.text_id, "derive": self.derive, "sort_by_name": self.by_name})
+    }
+}
+
+pub const PREFIXES: &[&str] = &["@", "", "attr_", "$", "@@", "a", "_", "#", "é", "@\"", " "];
+pub const TEXT_IDS: &[&str] = &["$text", "$value", "text", "#text", "", "body", "$", "t e x t", "\"q\"", "名"];
+pub const DERIVES: &[&str] = &[
+    "Serialize, Deserialize",
+    "",
+    "Debug",
+    "Debug, Clone, PartialEq",
+    " Debug ",
+    "Debug,Serialize",
+    "Deserialize",
+    "serde::Serialize, serde::Deserialize",
+    "Default, Debug, Clone, PartialEq, Eq, Hash",
+    "é",
+    "A(B)",
+    "\"x\"",
+    "Debug)] #[cfg(x",
+    "\n",
+    " ",
+];
+
+pub fn decode_options(t: &mut Tape) -> OptSpec {
+    // index 0 of every list is the quick-xml preset value
+    OptSpec {
+        prefix: t.pick(PREFIXES).to_string(),
+        text_id: t.pick(TEXT_IDS).to_string(),
+        derive: t.pick(DERIVES).to_string(),
+        by_name: t.chance(128),
+    }
+}
+
+/// case-folded alphanumerics: names with equal fold collide after PascalCase / snake_case normalisation
+pub fn fold(s: &str) -> String {
+    s.chars().filter(|c| c.is_alphanumeric()).flat_map(|c| c.to_lowercase()).collect()
+}
+
+/// some position has two distinct child names (or an attribute and a child) with equal fold
+pub fn has_colliding_fields(s: &Schema) -> bool {
+    let mut folds: Vec<String> = s.children.iter().map(|c| fold(local_of(&c.schema.name))).collect();
+    folds.extend(s.attrs.iter().map(|a| fold(&a.name)));
+    let mut sorted = folds.clone();
+    sorted.sort();
+    sorted.dedup();
+    if sorted.len() != folds.len() {
+        return true;
+    }
+    s.children.iter().any(|c| has_colliding_fields(&c.schema))
+}
+
+/// some position with >= 2 occurrences has >= 2 optional children (several demotions at one position)
+pub fn has_multi_demotion(s: &Schema) -> bool {
+    (s.occurrences >= 2 && s.children.iter().filter(|c| c.optional).count() >= 2) || s.children.iter().any(|c| has_multi_demotion(&c.schema))
+}
